@@ -4,6 +4,7 @@ package main
 
 import (
 	"bytes"
+	"regexp"
 	"context"
 	"fmt"
 	"os"
@@ -194,11 +195,20 @@ var solvers = []Solver{
 	{"z3-new-5.1.0-ematch", []string{"z3-new", "-smt2", "smt.mbqi=false", "smt.auto_config=false"}, 0},
 	// summary variants: callee frame clauses (ensures named frame_*) are dropped, so that the callee's
 	// summary clauses (e.g. "every other list keeps its invariant") are what the proof uses
-	{"z3-new-5.1.0-ematch-noframes", []string{"z3-new", "-smt2", "smt.mbqi=false", "smt.auto_config=false"}, 0},
-	{"cvc5-1.0.3-noframes", []string{"cvc5", "--lang=smt2", "--produce-models"}, 0},
+	{"z3-new-5.1.0-ematch-noframes", []string{"z3-new", "-smt2", "smt.mbqi=false", "smt.auto_config=false"}, 1.5},
+	{"cvc5-1.0.3-noframes", []string{"cvc5", "--lang=smt2", "--produce-models"}, 1.5},
 	// hypothesis-pruned variants: every quantified assumption is dropped (sound: fewer hypotheses); they
 	// decide arithmetic / bit-vector conjuncts quickly when the quantified invariants are irrelevant
 	{"z3-new-5.1.0-noquant", []string{"z3-new", "-smt2"}, 0.5},
+	// quantifier-free core: additionally drops assumptions about folded (opaque) predicates; decides sums of
+	// list sizes after several updates, where those atoms only add case splits
+	// (NOTE: z3's smt.bv.solver=2 decided these instantly but answered unsat on the satisfiable
+	// x&(x-1)=0, so it is NOT used)
+	{"z3-new-5.1.0-qfcore", []string{"z3-new", "-smt2"}, 1},
+	// relevance-pruned variants: quantified assumptions that mention none of the (rarer) heap fields of
+	// the goal are dropped (sound: fewer hypotheses)
+	{"cvc5-1.0.3-relevant", []string{"cvc5", "--lang=smt2", "--produce-models"}, 2.5},
+	{"z3-new-5.1.0-ematch-relevant", []string{"z3-new", "-smt2", "smt.mbqi=false", "smt.auto_config=false"}, 2.5},
 	// second line: start only if the first line has not answered
 	{"z3-new-5.1.0", []string{"z3-new", "-smt2", "smt.mbqi=true"}, 4},
 	{"z3-4.8.12-ematch", []string{"z3", "-smt2", "smt.mbqi=false", "smt.auto_config=false"}, 6},
@@ -254,6 +264,18 @@ func solve(query string, timeout time.Duration, workdir string, tag string, want
 				continue // nothing to prune: identical to the base configuration
 			}
 		}
+		if strings.HasSuffix(s.Name, "-qfcore") {
+			q = stripOpaque(stripQuantified(query))
+			if q == query {
+				continue
+			}
+		}
+		if strings.HasSuffix(s.Name, "-relevant") {
+			q = stripIrrelevant(query)
+			if q == query {
+				continue
+			}
+		}
 		if strings.HasSuffix(s.Name, "-noframes") {
 			q = stripFrames(query)
 			if q == query {
@@ -304,7 +326,7 @@ func solve(query string, timeout time.Duration, workdir string, tag string, want
 			case strings.Contains(o, "error") || strings.Contains(o, "Error"):
 				st = "error"
 			}
-			if (strings.HasSuffix(s.Name, "-noquant") || strings.HasSuffix(s.Name, "-noframes")) && st == "sat" {
+			if (strings.HasSuffix(s.Name, "-noquant") || strings.HasSuffix(s.Name, "-noframes") || strings.HasSuffix(s.Name, "-relevant") || strings.HasSuffix(s.Name, "-qfcore")) && st == "sat" {
 				st = "unknown" // a model of the pruned hypothesis set says nothing about the full one
 			}
 			ch <- one{s.Name, st, o, dt}
@@ -330,6 +352,11 @@ func solve(query string, timeout time.Duration, workdir string, tag string, want
 	if res.Status != "unsat" && res.Status != "sat" && fallback != nil {
 		res.Status, res.Solver, res.TimeS, res.Output = fallback.status, fallback.name, fallback.t, fallback.out
 	}
+	if statsFile != nil {
+		statsMu.Lock()
+		fmt.Fprintf(statsFile, "%s\t%s\t%.2f\t%s\n", res.Status, res.Solver, res.TimeS, tag)
+		statsMu.Unlock()
+	}
 	if !keepQueries && res.Status == "unsat" {
 		for _, s := range solvers {
 			os.Remove(base + "." + sanitizeFile(s.Name) + ".smt2")
@@ -339,6 +366,8 @@ func solve(query string, timeout time.Duration, workdir string, tag string, want
 }
 
 var keepQueries = false
+var statsFile *os.File
+var statsMu sync.Mutex
 
 func sanitizeFile(s string) string {
 	var b strings.Builder
@@ -368,6 +397,78 @@ func stripFrames(q string) string {
 		}
 		if skip {
 			skip = false
+			continue
+		}
+		out = append(out, l)
+	}
+	return strings.Join(out, "\n")
+}
+
+var heapFamRe = regexp.MustCompile(`H\.([A-Za-z0-9_.<>\[\]*#]+)!\d+`)
+
+// stripIrrelevant drops quantified assumptions that share no heap field ("family") with the goal, where
+// fields occurring in most assumptions (pointer selectors such as TinyLfu.window) do not count.
+func stripIrrelevant(q string) string {
+	lines := strings.Split(q, "\n")
+	lastAssert := -1
+	nAssert := 0
+	freq := map[string]int{}
+	for i, l := range lines {
+		if strings.HasPrefix(l, "(assert ") {
+			lastAssert = i
+			nAssert++
+			seen := map[string]bool{}
+			for _, m := range heapFamRe.FindAllStringSubmatch(l, -1) {
+				if !seen[m[1]] {
+					seen[m[1]] = true
+					freq[m[1]]++
+				}
+			}
+		}
+	}
+	if lastAssert < 0 {
+		return q
+	}
+	goalFam := map[string]bool{}
+	for _, m := range heapFamRe.FindAllStringSubmatch(lines[lastAssert], -1) {
+		if freq[m[1]]*3 <= nAssert*2 { // not ubiquitous
+			goalFam[m[1]] = true
+		}
+	}
+	if len(goalFam) == 0 {
+		return q
+	}
+	var out []string
+	for i, l := range lines {
+		if i != lastAssert && strings.HasPrefix(l, "(assert ") && (strings.Contains(l, "(forall ") || strings.Contains(l, "(exists ")) {
+			keep := false
+			for _, m := range heapFamRe.FindAllStringSubmatch(l, -1) {
+				if goalFam[m[1]] {
+					keep = true
+					break
+				}
+			}
+			if !keep {
+				continue
+			}
+		}
+		out = append(out, l)
+	}
+	return strings.Join(out, "\n")
+}
+
+// stripOpaque removes assumptions (not the goal) that mention a folded predicate.
+func stripOpaque(q string) string {
+	lines := strings.Split(q, "\n")
+	lastAssert := -1
+	for i, l := range lines {
+		if strings.HasPrefix(l, "(assert ") {
+			lastAssert = i
+		}
+	}
+	var out []string
+	for i, l := range lines {
+		if i != lastAssert && strings.HasPrefix(l, "(assert ") && strings.Contains(l, "(op.") {
 			continue
 		}
 		out = append(out, l)
